@@ -24,6 +24,7 @@ def run(ctx):
 
 def run_cfg(ctx, p, cfg):
     from rules import c01
+    c01.rule_inheritance_shape(ctx, p, cfg, "T5")   # an implied intermediate logger gates with its parent's threshold, a declared one with its own
     c01.rule_add_total(ctx, p, cfg, "T4")   # the predicate and the maximum range over every declared logger only if each is in the tree
     with ctx.rule("T1", "same predicate", cfg) as r:
         ro = anchors.routing(p)
